@@ -4,6 +4,7 @@ def b_SignalState_create_signal_state_node : CR.SrcW.Builder where
   kind := .fill
   tag := ""
   xsd := "signalState"
+  path := []
   parent := ""
   attrs := []
   gattrs := []
@@ -40,7 +41,8 @@ def b_SignalState_create_signal_state_node_flashingBlueLights : CR.SrcW.Builder 
   key := "SignalStateXMLNode.create_signal_state_node/flashingBlueLights"
   kind := .node
   tag := "flashingBlueLights"
-  xsd := ""
+  xsd := "signalState"
+  path := ["flashingBlueLights"]
   parent := "SignalStateXMLNode.create_signal_state_node"
   attrs := []
   gattrs := []
@@ -53,7 +55,8 @@ def b_SignalState_create_signal_state_node_hazardWarningLights : CR.SrcW.Builder
   key := "SignalStateXMLNode.create_signal_state_node/hazardWarningLights"
   kind := .node
   tag := "hazardWarningLights"
-  xsd := ""
+  xsd := "signalState"
+  path := ["hazardWarningLights"]
   parent := "SignalStateXMLNode.create_signal_state_node"
   attrs := []
   gattrs := []
@@ -66,7 +69,8 @@ def b_SignalState_create_signal_state_node_brakingLights : CR.SrcW.Builder where
   key := "SignalStateXMLNode.create_signal_state_node/brakingLights"
   kind := .node
   tag := "brakingLights"
-  xsd := ""
+  xsd := "signalState"
+  path := ["brakingLights"]
   parent := "SignalStateXMLNode.create_signal_state_node"
   attrs := []
   gattrs := []
@@ -79,7 +83,8 @@ def b_SignalState_create_signal_state_node_indicatorRight : CR.SrcW.Builder wher
   key := "SignalStateXMLNode.create_signal_state_node/indicatorRight"
   kind := .node
   tag := "indicatorRight"
-  xsd := ""
+  xsd := "signalState"
+  path := ["indicatorRight"]
   parent := "SignalStateXMLNode.create_signal_state_node"
   attrs := []
   gattrs := []
@@ -92,7 +97,8 @@ def b_SignalState_create_signal_state_node_indicatorLeft : CR.SrcW.Builder where
   key := "SignalStateXMLNode.create_signal_state_node/indicatorLeft"
   kind := .node
   tag := "indicatorLeft"
-  xsd := ""
+  xsd := "signalState"
+  path := ["indicatorLeft"]
   parent := "SignalStateXMLNode.create_signal_state_node"
   attrs := []
   gattrs := []
@@ -105,7 +111,8 @@ def b_SignalState_create_signal_state_node_horn : CR.SrcW.Builder where
   key := "SignalStateXMLNode.create_signal_state_node/horn"
   kind := .node
   tag := "horn"
-  xsd := ""
+  xsd := "signalState"
+  path := ["horn"]
   parent := "SignalStateXMLNode.create_signal_state_node"
   attrs := []
   gattrs := []
@@ -118,7 +125,8 @@ def b_SignalState_create_signal_state_node_time : CR.SrcW.Builder where
   key := "SignalStateXMLNode.create_signal_state_node/time"
   kind := .node
   tag := "time"
-  xsd := ""
+  xsd := "signalState"
+  path := ["time"]
   parent := "SignalStateXMLNode.create_signal_state_node"
   attrs := []
   gattrs := []
